@@ -203,6 +203,8 @@ def interp(ast, env, cx):
         opts = ast[3] if k != "nout" else {}
         names = list(binds)
         cx2 = merge_ctx(cx, opts["ctx"]) if "ctx" in opts else cx
+        for c_ in opts.get("pctx", []):
+            cx2 = merge_ctx(cx2, c_)
         if "ctxe" in opts:
             # expression-valued overrides are task options: evaluated (by the parent job) before use
             keys = list(opts["ctxe"])
